@@ -228,17 +228,18 @@ def Registry.isActive (r : Registry) (a : RR) : Bool :=
   ((alookup a.getName r.active).getD []).any (a.matchesRR ·)
 
 /-- the probe after record `a` of service `svcName` came to it at `start`: a record that is not
-    matched in the probe joins it, and when the probe began before `start` its schedule starts
-    over at `start` (repair of D33: the new record must be probed three times itself) -/
+    matched in the probe joins it, and when the probe has sent a query already (`next_send` has
+    moved on from `start_time`) its schedule starts over at `start` (repair of D33: the new
+    record must be probed three times itself) -/
 def Probe.join (p : Probe) (a : RR) (svcName : BList) (start : Nat) : Probe :=
   if p.records.any (a.matchesRR ·) then { p with waiting := sinsert svcName p.waiting }
-  else if p.start < start then
+  else if p.start < p.next then
     { records := insertRR a p.records, waiting := sinsert svcName p.waiting, start := start, next := start }
   else { p with records := insertRR a p.records, waiting := sinsert svcName p.waiting }
 
 /-- does `a` make the probe start over? -/
-def Probe.restarts (p : Probe) (a : RR) (start : Nat) : Bool :=
-  !p.records.any (a.matchesRR ·) && decide (p.start < start)
+def Probe.restarts (p : Probe) (a : RR) (_start : Nat) : Bool :=
+  !p.records.any (a.matchesRR ·) && decide (p.start < p.next)
 
 /-- second half of `is_probing_done` (the record is not active): the probe of the record's
     name is created if need be, its `next_send` goes to `new_timers`, the record joins the
@@ -725,24 +726,36 @@ def answerQuestion (known : List Wire.Rec) (services : List (BList × Service)) 
       else r
     answerInstance known services i reg v4 q.name q.ty r1
 
-/-- `Probe::tiebreaking` for the probe of `qname` against the authority section -/
+/-- our probe of a name a peer spells in whatever letter case (repair of D38: the lookups were
+    by the exact spelling on the wire): its key, in OUR spelling -/
+def Registry.probeKey (reg : Registry) (name : BList) : Option BList :=
+  (reg.probing.find? fun e => lower e.1 == lower name).map (·.1)
+
+/-- `Probe::tiebreaking` for our probe of `qname` (any letter case) against the authority section
+    (the peer's records are picked by the spelling of the question) -/
 def tiebreak (now : Nat) (auths : List Wire.Rec) (reg : Registry) (q : Wire.Question) : Registry :=
   if q.ty != TYPE_ANY then reg
   else
-    match alookup q.name reg.probing with
+    match reg.probeKey q.name with
     | none => reg
-    | some p =>
-      if p.start ≥ now then reg
-      else
-        match Compare.zipCmp (p.records.map RR.wire) (Compare.incomingFor auths q.name) with
-        | .lt => { reg with probing := aset q.name { p with start := now + 1000, next := now + 1000 } reg.probing }
-        | _ => reg
+    | some k =>
+      match alookup k reg.probing with
+      | none => reg
+      | some p =>
+        if p.start ≥ now then reg
+        else
+          match Compare.zipCmp (p.records.map RR.wire) (Compare.incomingFor auths q.name) with
+          | .lt => { reg with probing := aset k { p with start := now + 1000, next := now + 1000 } reg.probing }
+          | _ => reg
 
 /-- `probe.next_send != next_send` around the call of `tiebreaking`: was the probe postponed? -/
 def postponedTo (now : Nat) (auths : List Wire.Rec) (reg : Registry) (q : Wire.Question) : Option Nat :=
-  match alookup q.name reg.probing, alookup q.name (tiebreak now auths reg q).probing with
-  | some p, some p' => if p'.next != p.next then some p'.next else none
-  | _, _ => none
+  match reg.probeKey q.name with
+  | none => none
+  | some k =>
+    match alookup k reg.probing, alookup k (tiebreak now auths reg q).probing with
+    | some p, some p' => if p'.next != p.next then some p'.next else none
+    | _, _ => none
 
 /-- the timers `handle_query` arms while it walks the questions: one for every probe that a
     lost tiebreak postponed (repair of D34) -/
@@ -821,19 +834,24 @@ def updateHostname (reg : Registry) (original newName : BList) (probeTime : Nat)
 /-- the body of `conflict_handler` for one answer of a response -/
 def conflictOnAnswer (now jitter : Nat) (acc : Registry × List Nat) (ans : Wire.Rec) : Registry × List Nat :=
   let reg := acc.1
-  match alookup ans.name reg.probing with
+  -- our probe of the answer's name, whatever letter case the peer spells it in; from here on
+  -- the name is OUR spelling (repair of D38)
+  match reg.probeKey ans.name with
+  | none => acc
+  | some name =>
+  match alookup name reg.probing with
   | none => acc
   | some probe =>
     let isAddr := ans.ty == TYPE_A || ans.ty == TYPE_AAAA
     if isAddr && probe.records.any (fun r => r.ty == ans.ty && ans.cls == 1 && rdataMatch r ans) then acc
     else
       let conflicting := fun (r : RR) => r.ty == ans.ty && ans.cls == 1 && !rdataMatch r ans
-      let newRecords := (probe.records.filter conflicting).map fun r => r.setNewName (renameFor r.ty ans.name)
+      let newRecords := (probe.records.filter conflicting).map fun r => r.setNewName (renameFor r.ty name)
       let probe1 := { probe with records := probe.records.filter (fun r => !conflicting r) }
-      let reg1 := { reg with probing := aset ans.name probe1 reg.probing }
+      let reg1 := { reg with probing := aset name probe1 reg.probing }
       let createTime := now + jitter
       newRecords.foldl (fun (acc : Registry × List Nat) rec =>
-        let (regA, created) := updateHostname acc.1 ans.name rec.getName createTime
+        let (regA, created) := updateHostname acc.1 name rec.getName createTime
         let timersA := if created then acc.2 ++ [createTime] else acc.2
         let regB := { regA with nameChanges := aset rec.name rec.getName regA.nameChanges }
         let (p, timersB) :=
